@@ -1893,12 +1893,14 @@ func (t *tScreen) collectEventsFromInput(buf *bytes.Buffer, expire bool) []Event
 			// to the app & let them sort it out.  Possibly we
 			// should only do this for control characters like ESC.
 			by, _ := buf.ReadByte()
-			mod := ModNone
+			ev := NewEventKey(KeyRune, rune(by), ModNone)
 			if t.escaped {
+				// Alt is added to the modifiers the byte has on its
+				// own (Ctrl for a control character).
 				t.escaped = false
-				mod = ModAlt
+				ev.mod |= ModAlt
 			}
-			res = append(res, NewEventKey(KeyRune, rune(by), mod))
+			res = append(res, ev)
 			continue
 		}
 
